@@ -314,32 +314,47 @@ class Parser:
             raise self._parse_error('FPy `hexfloat` expects a string', e)
         return Hexnum(func, arg.val, loc)
 
+    def _parse_integer_arg(self, e: ast.expr) -> int | None:
+        """
+        Parses an argument that must be an integer literal.
+
+        Returns `None` if the argument is not an integer literal.
+        """
+        arg = self._parse_expr(e)
+        if isinstance(arg, Integer):
+            return arg.val
+        if isinstance(arg, Decnum) and arg.is_integer():
+            # a negated zero (`-0`) is folded to the signed literal `-0.0`
+            # (see `_parse_unaryop`); as an integer it is still `0`
+            return int(arg.as_rational())
+        return None
+
     def _parse_rational(self, e: ast.Call, func: FuncSymbol):
         loc = self._parse_location(e)
         if len(e.args) != 2:
             raise self._parse_error('FPy `rational` expects two arguments', e)
-        p = self._parse_expr(e.args[0])
-        if not isinstance(p, Integer):
+        p = self._parse_integer_arg(e.args[0])
+        if p is None:
             raise self._parse_error('FPy `rational` expects an integer as first argument', e)
-        q = self._parse_expr(e.args[1])
-        if not isinstance(q, Integer):
+        q = self._parse_integer_arg(e.args[1])
+        if q is None:
             raise self._parse_error('FPy `rational` expects an integer as second argument', e)
-        return Rational(func, p.val, q.val, loc)
+        return Rational(func, p, q, loc)
 
     def _parse_digits(self, e: ast.Call, func: FuncSymbol):
         loc = self._parse_location(e)
         if len(e.args) != 3:
             raise self._parse_error('FPy `digits` expects three arguments', e)
-        m_e = self._parse_expr(e.args[0])
-        if not isinstance(m_e, Integer):
+        m = self._parse_integer_arg(e.args[0])
+        if m is None:
             raise self._parse_error('FPy `digits` expects an integer as first argument', e)
-        e_e = self._parse_expr(e.args[1])
-        if not isinstance(e_e, Integer):
+        exp = self._parse_integer_arg(e.args[1])
+        if exp is None:
             raise self._parse_error('FPy `digits` expects an integer as second argument', e)
-        b_e = self._parse_expr(e.args[2])
-        if not isinstance(b_e, Integer):
+        b = self._parse_integer_arg(e.args[2])
+        if b is None:
             raise self._parse_error('FPy `digits` expects an integer as third argument', e)
-        return Digits(func, m_e.val, e_e.val, b_e.val, loc)
+        return Digits(func, m, exp, b, loc)
 
     def _parse_range(self, e: ast.Call, func: FuncSymbol):
         loc = self._parse_location(e)
